@@ -65,3 +65,13 @@ stmt_contract(f"{SU}::MLSurrogateSampler.sample_batch",
                        # the chosen ones are distinct pool members (a permutation prefix)
                        "forall(lambda a, b: implies(0 <= a and a < b and b < batch_size, sorting_indices[a] != sorting_indices[b]))"],
               props=["C16"])
+
+# ---- XGBoostSampler._clip_losses (C16: the loss history lent to the sampler is never written; F-16) ------------------
+XG = "black_it/samplers/xgboost.py"
+_HI, _LO = "MAX_FLOAT32 - EPS_FLOAT32", "MIN_FLOAT32 + EPS_FLOAT32"
+contract(f"{XG}::XGBoostSampler._clip_losses", params={"y": "arr1[real]"}, returns="arr1[real]", props=["C16"],
+         ensures=["len(result) == len(y)",
+                  "forall(range(0, len(y)), lambda i: result[i] == ite(y[i] >= MAX_FLOAT32, MAX_FLOAT32 - EPS_FLOAT32, "
+                  "ite(y[i] <= MIN_FLOAT32, MIN_FLOAT32 + EPS_FLOAT32, y[i])))"],
+         # the argument itself is never written (frame obligation): out-of-range values are clipped in a COPY
+         modifies=[])
